@@ -369,3 +369,113 @@ func symPlugins(n int) []string {
 	}
 	return ps
 }
+
+// ---- updates ----
+
+// fullResources: every resource field present with arbitrary values (a pre-populated runtime request).
+func fullResources() *LinuxResources {
+	return &LinuxResources{
+		Memory: &LinuxMemory{Limit: optI64(nondetInt64()), Reservation: optI64(nondetInt64()), Swap: optI64(nondetInt64()),
+			Kernel: optI64(nondetInt64()), KernelTcp: optI64(nondetInt64()), Swappiness: optU64(nondetInt64()),
+			DisableOomKiller: optBool(nondetInt64()), UseHierarchy: optBool(nondetInt64())},
+		Cpu: &LinuxCPU{Shares: optU64(nondetInt64()), Quota: optI64(nondetInt64()), Period: optU64(nondetInt64()),
+			RealtimeRuntime: optI64(nondetInt64()), RealtimePeriod: optU64(nondetInt64()), Cpus: nondetString(), Mems: nondetString()},
+		HugepageLimits: []*HugepageLimit{{PageSize: nondetString(), Limit: uint64(nondetInt64())}},
+		BlockioClass:   optStr(nondetString()),
+		RdtClass:       optStr(nondetString()),
+		Unified:        map[string]string{nondetString(): nondetString()},
+		Pids:           &api.LinuxPids{Limit: nondetInt64()},
+	}
+}
+
+// request kinds for update harnesses
+const (
+	reqCreate = iota
+	reqUpdate
+	reqStop
+)
+
+var reqNames = [...]string{"create", "update", "stop"}
+
+// symUpdateResult builds the result collector for a request of the given kind; returns it with the
+// id of the request's own container. prepop: 0 = no resources in the update request, 1 = only family f
+// present, 2 = every field present.
+func symUpdateResult(kind int, f int, prepop int) (*result, string) {
+	switch kind {
+	case reqCreate:
+		req := symOriginal(f)
+		return collectCreateContainerResult(req), req.Container.Id
+	case reqUpdate:
+		own := nondetString()
+		req := &UpdateContainerRequest{Container: &Container{Id: own}, Pod: &PodSandbox{}}
+		switch prepop {
+		case 1:
+			req.LinuxResources = buildResources(f, symItems(f, 1))
+		case 2:
+			req.LinuxResources = fullResources()
+		}
+		return collectUpdateContainerResult(req), own
+	}
+	return collectStopContainerResult(), ""
+}
+
+func wrapUpdates(kind int, us []*ContainerUpdate) interface{} {
+	switch kind {
+	case reqCreate:
+		return &CreateContainerResponse{Update: us}
+	case reqUpdate:
+		return &UpdateContainerResponse{Update: us}
+	}
+	return &StopContainerResponse{Update: us}
+}
+
+// rhUpdateRun: plugin j sends one update of family fams[j] (<= maxItems[j] items) to an arbitrary target.
+// mode 1 = C01 direction, mode 2 = C02 direction.
+func rhUpdateRun(kind int, fams []int, maxItems []int, prepop int, mode int) {
+	shape("req=" + reqNames[kind])
+	for _, f := range fams {
+		shape("fam=" + famNames[f])
+	}
+	r, own := symUpdateResult(kind, fams[0], prepop)
+	n := len(fams)
+	ps := symPlugins(n)
+	var prev [][]sItem
+	var targets []string
+	for j := 0; j < n; j++ {
+		f := fams[j]
+		cur := symItems(f, maxItems[j])
+		t := nondetString()
+		if kind == reqCreate {
+			assume(t != own) // updating the container under creation is C05's subject
+		}
+		wf := wellFormed(f, cur)
+		// expected conflict: an earlier plugin set the same item of the same target
+		exp := false
+		for i := range prev {
+			if fams[i] != f {
+				continue
+			}
+			same := targets[i] == t
+			exp = bor(exp, band(same, expectedConflict(f, [][]sItem{prev[i]}, cur)))
+		}
+		u := &ContainerUpdate{ContainerId: t, Linux: &LinuxContainerUpdate{Resources: buildResources(f, cur)}}
+		err := r.apply(wrapUpdates(kind, []*ContainerUpdate{u}), ps[j])
+		if mode == 1 {
+			coverIf(exp, "collision")
+			if err == nil {
+				vassert(bnot(exp), "undetected-update-collision")
+			}
+		} else {
+			coverIf(band(wf, bnot(exp)), "conflict-free")
+			if err != nil {
+				vassert(bor(bnot(wf), exp), "spurious-update-conflict")
+			}
+		}
+		if err != nil {
+			return
+		}
+		assume(wf)
+		prev = append(prev, cur)
+		targets = append(targets, t)
+	}
+}
